@@ -511,6 +511,8 @@ bool encode_array::push(const struct message &msg)
 			if (!tmp.clen--) {
 				break;
 			}
+			tmp.base = tmp.cont->iov_base;
+			tmp.used = tmp.cont->iov_len;
 			++tmp.cont;
 			continue;
 		}
@@ -519,6 +521,8 @@ bool encode_array::push(const struct message &msg)
 		if (curr < 0 || (size_t) curr > tmp.used) {
 			return false;
 		}
+		tmp.base = static_cast<const uint8_t *>(tmp.base) + curr;
+		tmp.used -= curr;
 	}
 	return true;
 }
